@@ -130,6 +130,19 @@ theorem C12_die_unexpected_term (o : Opts) (cs : List Chunk) (preB : List Block)
   C12_die_items pre H CIF_UNEXPECTED_TERM 0 1 (fun _ => True) hpre (by decide) (by simp) (by simp) trivial
     (fun _ _ _ => ⟨_, _, _, rfl, rfl⟩) (fun _ => die_unexpected_term o tx [] _)
 
+/-- **C12_die_null_loop** — `loop_` that is not followed by a data name (another `loop_`, a frame or block header, the end) -/
+theorem C12_die_null_loop (o : Opts) (cs : List Chunk) (preB : List Block) (bc : Str) (pre : List Item)
+    (rest : List TokSpec) (H : DieHost o cs preB bc (itemsToks pre ++ [(.loopKw, [])]) rest) (hpre : wfItems o pre [] = true)
+    (hrest : rest = [] ∨ ∃ ty tx ts, rest = (ty, tx) :: ts ∧ ty ≠ .name) :
+    DieOutcome o cs CIF_NULL_LOOP (denote o.dia o.normKey (preB ++ [plainBlock bc pre]))
+      ((blocksToks preB).length + 1 + ((itemsToks pre).length + 1)) :=
+  C12_die_items pre H CIF_NULL_LOOP 1 2 (fun rest => ∃ ty tx ts, rest = (ty, tx) :: ts ∧ ty ≠ .name) hpre (by decide) (by simp) (by simp)
+    (by
+      rcases hrest with rfl | ⟨ty, tx, ts, rfl, hn⟩
+      · exact ⟨.end_, [], [], rfl, by decide⟩
+      · exact ⟨ty, tx, ts ++ [(.end_, [])], rfl, hn⟩)
+    (fun _ _ _ => ⟨_, _, _, rfl, rfl⟩) (fun hv => die_null_loop o hv true [] _)
+
 /-! ### among the items of a save frame of a data block -/
 
 /-- a defect behind the items `pre` of the save frame `fc`, which stands behind the well-formed elements `preE` of the data block
